@@ -52,3 +52,19 @@ def gen(rng, tier):
                     for s in "ui":
                         yield f"from_be_slice {s}{cfg} {b.hex() or '-'}", "all-lengths"
                         yield f"from_le_slice {s}{cfg} {b[::-1].hex() or '-'}", "all-lengths"
+    # over-long slices with exactly ONE byte of the excess region deviating from the padding, at every excess
+    # position and every length up to three whole digits (+ a partial one) beyond BYTES — the partial top digit
+    # and each whole excess digit are checked by different code (added after seeded change C15-r4m1)
+    for cfg in ["8x3", "16x2", "16x3", "32x2", "32x3", "64x1", "64x2"]:
+        w, n = wn(cfg)
+        BY = w * n // 8
+        for ln in range(BY + 1, BY + 3 * (w // 8) + 2):
+            for fill, top in ((0, 0x00), (0, 0x7f), (0xff, 0x80), (0xff, 0xff), (0, 0x80)):
+                core = bytes([top] + [rng.randrange(256) for _ in range(BY - 1)])
+                for p in range(ln - BY):
+                    pad = bytearray([fill]) * (ln - BY)
+                    pad[p] = rng.choice([fill ^ 0xff, fill ^ 0x01, fill ^ 0x80, rng.randrange(256)])
+                    b = bytes(pad) + core
+                    for sgn in "ui":
+                        yield f"from_be_slice {sgn}{cfg} {b.hex()}", "one-bad-pad-byte"
+                        yield f"from_le_slice {sgn}{cfg} {b[::-1].hex()}", "one-bad-pad-byte"
